@@ -278,6 +278,9 @@ func mutateStep(c *Ctx, bm *BM, o MutOpts) string {
 		// a burst of removals of the current maximum (or minimum) of the bitmap or of one chunk: "pop from the end",
 		// which keeps hitting the last (first) run / the tail of one container without any other operation in between
 		n := 2 + r.Intn(9)
+		if r.Chance(0.25) {
+			n = 10 + r.Intn(40) // long enough to eat most of a long last run
+		}
 		fromTop := r.Chance(0.6)
 		var lo, hi uint64 = 0, max32
 		if ivs := m.Intervals(); len(ivs) > 0 && r.Chance(0.5) {
